@@ -20,7 +20,7 @@ def rfile(rng):
     return (b"k=" + b"v" * rng.randrange(8180, 8200) + b"\n #c\n") * 2
 
 def gen(rng, tier):
-    n = 700 if tier == "quick" else 100000
+    n = 2100 if tier == "quick" else 100000
     out = []
     for _ in range(n):
         dl = rng.choice(XDELIMS if rng.random() < 0.3 else gens.DELIMS)
